@@ -8,6 +8,19 @@ CLAIMS = {
   note="Assumes session confinement of State (C19), the dependency specs of slices.BinarySearchFunc and xslices.Insert, mathematical heap model (no goroutines). Undecided: responders (targetedExists/expunge/fetch handle), flushResponses, response.Merge, snapshot construction from SQL rows.",
   ref="DESIGN.md §4 C01"),
 
+
+ "C02": dict(
+  text="Deductive proof that the state-update filters are exactly the predicates the delivery relies on: AllStateFilter, MBoxIDStateFilter and AnyMessageIDStateFilter are characterised exactly (true iff selected / same mailbox / some listed message in the view), MessageIDStateFilter and MessageAndMBoxIDStateFilter are sound and accept every state whose view contains the message. The clause taken from the property - a state in which the message's EXISTS is still queued must be accepted too - fails on the real code and is recorded as a known finding (wire-confirmed).",
+  note="Assumes session confinement. Undecided: broadcast (QueueOrApplyStateUpdate), FIFO queue, quiescence, cross-goroutine timing, SQL reads of a fresh session.",
+  ref="DESIGN.md §4 C02"),
+ "C06": dict(
+  text="Deductive proof that user.apply acknowledges every connector update exactly once (ghost counter on the update) with exactly the error of the dispatched apply function, on every path including unknown update kinds; plus the whole-module syntactic obligation that nothing else calls Update.Done.",
+  note="The per-kind apply functions are trusted (arbitrary heap effect). Undecided: the update loop (select/goroutine, out of the verified subset), idempotence of the write-the-difference functions, SQL effects.",
+  ref="DESIGN.md §4 C06"),
+ "C18": dict(
+  text="Deductive proof of the gating in the session dispatch: handlers of mailbox/message commands require an authenticated session (and the selected mailbox) as preconditions that are proved at every call site of the verified dispatch functions; handleAuthenticatedCommand / handleSelectedCommand answer ErrNotAuthenticated without touching the state when not logged in; the selected-state callback only runs with a mailbox; Backend.getUserID returns an id only for a user whose connector authorized exactly these credentials, returns none on failure, counts failures, resets on success and answers the third consecutive failure with ErrLoginBlocked.",
+  note="Handler bodies are trusted; State.Selected, Connector.Authorize are abstract models. Undecided: jail timing (timer/WaitGroup), handleLogin/handleIdle bodies, cross-user isolation of files.",
+  ref="DESIGN.md §4 C18"),
  "C03": dict(
   text="Deductive proof of the Go side of every bulk database operation behind APPEND/STORE/EXPUNGE/COPY/MOVE: for every list length (below, at and beyond the 1000/500 statement-batching limit) each statement handed to the driver has exactly as many arguments as `?` placeholders, the arguments of the statement built for a chunk are that chunk (chunks are specified to tile the input in order), and no index/nil/overflow obligation remains open. Two genuine defects found this way were repaired (IDs beyond the first chunk never removed; flags set on the first message of a chunk only).",
   note="Assumes: the trusted placeholder precondition of the SQL helper functions (go-sqlite3 ignores surplus arguments), fmt.Sprintf/strings.Join/Repeat placeholder arithmetic, xslices.Chunk specification, SQLite executes the text as written. Undecided: the SQL text itself, the reference semantics of whole command sequences, flag algebra, store bytes, NO/BAD roll-back (wrapTx).",
@@ -45,8 +58,8 @@ CLAIMS = {
   note="Assumes dependency specs (BinarySearchFunc), sorted/indexed snapshot invariant at entry (proved preserved under C01). Undecided: completeness of the concatenation across ranges (proved per range in seqRange/uidRange only), mapping of ErrNoSuchMessage to BAD in the handlers, SEARCH sequence-set keys. Known deviation pinned by the existing tests: `n:*` with n above the highest UID selects nothing (RFC 3501 says it includes the last message) — see DESIGN.md.",
   ref="DESIGN.md §4 C16"),
  "C17": dict(
-  text="Deductive proof that the four limit checks are exact for all inputs (nil iff the resulting count / UID is within the configured maximum, including the deliberate wrap-around test on int64 addition), and return the documented error. The callers (where the checks sit relative to the transaction and the first write) are not yet under contract.",
-  note="Assumes non-negative counts at the call sites (stated as preconditions). Undecided: position of the checks in AddMessagesToMailbox/MoveMessagesFromMailbox/State.Create, all-or-nothing via wrapTx, concurrency.",
+  text="Deductive proof that the four limit checks are exact for all inputs (nil iff the resulting count / UID is within the configured maximum, including the deliberate wrap-around test on int64 addition), and return the documented error. Also proved: AddMessagesToMailbox / MoveMessagesFromMailbox read count and next UID of the DESTINATION mailbox in the same transaction and write nothing unless both checks passed; State.Create checks the mailbox limit for every mailbox it is about to create (name and missing parents; a genuine defect found here was repaired).",
+  note="Assumes non-negative counts at the call sites (stated as preconditions). Assumes the abstract transaction model (ghost write counter, uninterpreted count/next-UID functions). Undecided: AppendRegular (check on a read-only client outside the inserting transaction), Rename, connector-side creation, all-or-nothing via wrapTx, concurrency.",
   ref="DESIGN.md §4 C17"),
 }
 
